@@ -22,7 +22,8 @@
 (***************************************************************************)
 EXTENDS Naturals, Integers, Sequences, FiniteSets, TLC
 
-LOCAL SV(c, sig, w) == <<"Stats", c, sig, w>>
+\* witnesses are printed as text: the registers are sets, and TLC cannot compare a number with a string
+LOCAL SV(c, sig, w) == <<"Stats", c, sig, ToString(w)>>
 LOCAL SAbs(x) == IF x < 0 THEN -x ELSE x
 LOCAL SSet(s) == {s[i] : i \in DOMAIN s}
 LOCAL SSum(sq, P(_), F(_)) ==
